@@ -20,12 +20,16 @@ package main
 // step 2): the model was written against that shape.
 
 import (
+	"bytes"
+	"crypto/sha256"
 	"fmt"
 	"go/ast"
 	"go/parser"
+	"go/printer"
 	"go/token"
 	"os"
 	"path/filepath"
+	"sort"
 	"strconv"
 	"strings"
 )
@@ -56,6 +60,7 @@ type srcFacts struct {
 	adlerCopy    []uint64 // sources of the final-flush copy
 	flushRearm   [][2]uint64
 	iendChunk    []byte
+	digests      [][2]string // declaration name, SHA-256 of its comment-free gofmt text
 }
 
 func (f *srcFacts) evalInt(e ast.Expr) (uint64, bool) {
@@ -193,6 +198,42 @@ func parseSource(repo string) (*srcFacts, error) {
 	f := &srcFacts{consts: map[string]uint64{}}
 	funcs := map[string]*ast.FuncDecl{}
 	for _, d := range file.Decls {
+		// digest of every function and of the const/type/var blocks (comments are not in the AST:
+		// the file is parsed without parser.ParseComments), as printed by go/printer
+		var buf bytes.Buffer
+		if err := (&printer.Config{Mode: printer.UseSpaces | printer.TabIndent, Tabwidth: 8}).Fprint(&buf, fset, d); err != nil {
+			return nil, err
+		}
+		name := ""
+		switch d := d.(type) {
+		case *ast.FuncDecl:
+			name = "func " + d.Name.Name
+		case *ast.GenDecl:
+			if d.Tok == token.IMPORT {
+				name = ""
+				break
+			}
+			name = d.Tok.String()
+			for _, sp := range d.Specs {
+				switch sp := sp.(type) {
+				case *ast.ValueSpec:
+					name += " " + sp.Names[0].Name
+				case *ast.TypeSpec:
+					name += " " + sp.Name.Name
+				}
+				break
+			}
+		}
+		if name != "" {
+			// (blank lines and indentation dropped: without the comments their placement is an artefact)
+			var norm []string
+			for _, ln := range strings.Split(buf.String(), "\n") {
+				if t := strings.TrimSpace(ln); t != "" {
+					norm = append(norm, t)
+				}
+			}
+			f.digests = append(f.digests, [2]string{name, fmt.Sprintf("%x", sha256.Sum256([]byte(strings.Join(norm, "\n"))))})
+		}
 		switch d := d.(type) {
 		case *ast.FuncDecl:
 			funcs[d.Name.Name] = d
@@ -829,6 +870,15 @@ func renderTables(f *srcFacts) string {
 		ie = append(ie, uint64(c))
 	}
 	fmt.Fprintf(&b, "/-- `const iendChunk` of `flush` -/\ndef iendChunkSrc : List Nat := %s\n\n", natList(ie))
+	sort.SliceStable(f.digests, func(i, j int) bool { return f.digests[i][0] < f.digests[j][0] })
+	b.WriteString("/-- every top-level declaration of uncompng.go (imports excepted): name and SHA-256 of its text as\nprinted by go/printer without comments — what the hand-written model was reviewed against -/\ndef srcDigests : List (String × String) := [")
+	for i, d := range f.digests {
+		if i > 0 {
+			b.WriteString(",")
+		}
+		fmt.Fprintf(&b, "\n  (%q, %q)", d[0], d[1])
+	}
+	b.WriteString("]\n\n")
 	fmt.Fprintf(&b, "/-- `crc32IEEETable` of uncompng.go (%d entries) -/\ndef crc32IEEETable : Array UInt32 := #[", len(f.table))
 	for i, v := range f.table {
 		if i%8 == 0 {
